@@ -1,8 +1,8 @@
 (* Non-vacuity of headline theorems that had no instantiated example: C05 (heap), C07 (forms),
    C10 block end, C18 (origin row, chain, forest), and the datetime branch of the cell round trip. *)
 From Coq Require Import Lia.
-From PdV Require Import ParseTable LayoutProofs RoundTrip BlockEndProofs SegmentProofs ReaderProofs HeapProofs LoadProofs TreeProofs.
-From PdV.Model Require Import Segment Reader Heap Load Tree WriteCsv.
+From PdV Require Import ParseTable LayoutProofs RoundTrip BlockEndProofs SegmentProofs ReaderProofs HeapProofs LoadProofs TreeProofs FormsAgree.
+From PdV.Model Require Import Segment Reader Heap Load Tree WriteCsv Json.
 From PdV.Corr Require C05.
 Local Open Scope nat_scope.
 
@@ -55,6 +55,21 @@ Proof.
   apply (deliver_grid_shape ex_pf (fun _ => DBad) ex_cfg None true (segment_rows ex_rows) []).
   - vm_compute. reflexivity.
   - vm_compute. repeat constructor; discriminate.
+Qed.
+
+(* C07_json_is_table_to_json applied: the table of the sheet above, converted through its frame,
+   is the JsonData the precursor route renders - and that JsonData has the column with its value *)
+Example forms_agree_applies :
+  exists p, In (EBlock BTable 0 (CtTable p)) (fst (deliver ex_pf (fun _ => DBad) ex_cfg FPd None true (segment_rows ex_rows) [])) /\
+    table_to_json (p_name p) (p_dests p) (frame_cols (fun _ => []) (fun _ => []) p) = Some (json_of_ptable (fun _ => []) p) /\
+    j_cols (json_of_ptable (fun _ => []) p) = [([99]%N, [45]%N, [JFloat 1%N])].
+Proof.
+  eexists. split; [vm_compute; left; reflexivity|]. split.
+  - eapply (forms_agree (fun _ => []) (fun _ => []) ex_pf (fun _ => DBad) ex_cfg None true (segment_rows ex_rows) [] _ _ BTable 0).
+    + exact stock_fix_stock.
+    + apply surjective_pairing.
+    + vm_compute. left. reflexivity.
+  - vm_compute. reflexivity.
 Qed.
 
 (* ---- C05: a concrete heap with one table frame; copying it yields only new objects ---- *)
